@@ -34,7 +34,7 @@ pub fn scenario(
             xs.iter().map(|x| x.to_string()).collect::<Vec<_>>().join(",")
         }
     };
-    let ops: Vec<&str> = ops.iter().map(|s| s.as_str()).filter(|s| !s.is_empty()).collect();
+    let ops: Vec<&str> = ops.iter().flat_map(|s| s.split(';')).filter(|s| !s.is_empty()).collect();
     format!(
         "n={n} d={} t={t} local={local} mode={} scope={scope} blocked={} refsat={refsat} ops={}",
         list(d),
